@@ -252,6 +252,46 @@ static void mode_obs(uint64_t seed, int reps) {
     }
 }
 
+// block-valued (2x2 static_matrix) spectral radius: the definition of the Gershgorin bound is
+// max_i sum_j ||a_ij||_F (* ||a_ii^-1||_F when scaled); it must bound rho(A) resp. rho(D^-1 A).
+// Diagonal blocks are deliberately anisotropic / non-normal so that ||D^-1|| differs from 1/||D||.
+static void mode_obs_block(uint64_t seed, int reps) {
+    typedef static_matrix<double, 2, 2> V;
+    vr::rng g(seed + 991);
+    for (int r = 0; r < reps; ++r) {
+        int nb = g.range(2, 14);
+        auto A = std::make_shared<backend::crs<V, ptrdiff_t, ptrdiff_t>>();
+        A->set_size(nb, nb, true);
+        std::vector<std::vector<int>> cols(nb);
+        for (int i = 0; i < nb; ++i) for (int j = 0; j < nb; ++j) if (i == j || g.coin(0.3)) cols[i].push_back(j);
+        for (int i = 0; i < nb; ++i) A->ptr[i+1] = cols[i].size();
+        A->set_nonzeros(A->scan_row_sizes());
+        for (int i = 0; i < nb; ++i) { ptrdiff_t h = A->ptr[i]; for (int c : cols[i]) { V v;
+            if (c == i) { double big = 1.0 + 3.0 * g.unit(), small = std::pow(10.0, -2.0 * g.unit()); v(0,0) = big; v(1,1) = small * big; v(0,1) = 0.3 * g.unit() * small; v(1,0) = 0.0; }
+            else for (int a = 0; a < 2; ++a) for (int b = 0; b < 2; ++b) v(a,b) = 0.2 * (g.unit() - 0.5);
+            A->col[h] = c; A->val[h] = v; ++h; } }
+        int n = 2 * nb;
+        Eigen::MatrixXd E = Eigen::MatrixXd::Zero(n, n), S = Eigen::MatrixXd::Zero(n, n);
+        long double def0 = 0, def1 = 0;
+        for (int i = 0; i < nb; ++i) {
+            Eigen::Matrix2d D; long double rs = 0;
+            for (ptrdiff_t p = A->ptr[i]; p < A->ptr[i+1]; ++p) { Eigen::Matrix2d Bk; for (int a = 0; a < 2; ++a) for (int b = 0; b < 2; ++b) Bk(a,b) = A->val[p](a,b); if (A->col[p] == i) D = Bk; rs += Bk.norm(); }
+            Eigen::Matrix2d Di = D.inverse();
+            def0 = std::max(def0, rs); def1 = std::max(def1, rs * (long double)Di.norm());
+            for (ptrdiff_t p = A->ptr[i]; p < A->ptr[i+1]; ++p) { Eigen::Matrix2d Bk; for (int a = 0; a < 2; ++a) for (int b = 0; b < 2; ++b) Bk(a,b) = A->val[p](a,b);
+                E.block<2,2>(2*i, 2*A->col[p]) += Bk; S.block<2,2>(2*i, 2*A->col[p]) += Di * Bk; }
+        }
+        double rho = E.eigenvalues().cwiseAbs().maxCoeff(), rhoS = S.eigenvalues().cwiseAbs().maxCoeff();
+        double g0 = backend::spectral_radius<false>(*A, 0), g1 = backend::spectral_radius<true>(*A, 0);
+        const double Q = 1048576.0;
+        auto relerr = [](double got, long double want) { long double e = fabsl(got - want) / want; return e <= 1e-20L ? -20000LL : (long long)llroundl(1000 * log10l(e)); };
+        vr::obj o; o.str("k", "blockspec").str("tag", "block2").i("nb", nb);
+        o.i("gersh", (long long)std::ceil(g0 * Q)).i("gershS", (long long)std::ceil(g1 * Q)).i("rho", (long long)std::floor(rho * Q)).i("rhoS", (long long)std::floor(rhoS * Q));
+        o.i("err", relerr(g0, def0)).i("errS", relerr(g1, def1));
+        put(o);
+    }
+}
+
 int main(int argc, char **argv) {
     vr::install_terminate();
     std::string mode = argc > 1 ? argv[1] : "small";
@@ -260,7 +300,7 @@ int main(int argc, char **argv) {
     if (mode == "small") mode_small();
     else if (mode == "random") mode_random(seed, vr::env_int("VERIF_REPS", th ? 400 : 60), vr::env_int("VERIF_NMAX", th ? 60 : 24));
     else if (mode == "big") mode_random(seed + 5, vr::env_int("VERIF_REPS", th ? 12 : 3), vr::env_int("VERIF_NMAX", th ? 300 : 150));
-    else if (mode == "obs") mode_obs(seed, vr::env_int("VERIF_REPS", th ? 300 : 60));
+    else if (mode == "obs") { mode_obs(seed, vr::env_int("VERIF_REPS", th ? 300 : 60)); mode_obs_block(seed, vr::env_int("VERIF_REPS", th ? 300 : 60)); }
     vr::obj o; o.str("e", "End"); vr::emit(o.done());
     return 0;
 }
